@@ -40,6 +40,10 @@ static u8 sp_log_k[SP_LOG], sp_log_a[SP_LOG], sp_log_m[SP_LOG];
 static u64 sp_log_pos[SP_LOG];
 #endif
 
+#ifdef SP_EVENTS
+static void ev_push_real(u8 kind, u32 rule, u64 a, u64 b);   /* events.h */
+#endif
+
 u32 x_verif_sym(u32 k, u64 pos, u32 a, u32 m, u64 *np) {
 #ifndef __CPROVER__
   if (++sp_calls > 4096) { sp_exhausted = 1; *np = pos; return 0; }
@@ -49,6 +53,9 @@ u32 x_verif_sym(u32 k, u64 pos, u32 a, u32 m, u64 *np) {
 #if SP_LOG
   if (sp_nlog < SP_LOG) { sp_log_k[sp_nlog] = k; sp_log_a[sp_nlog] = a; sp_log_m[sp_nlog] = m; sp_log_pos[sp_nlog] = pos; }
   sp_nlog++;
+#endif
+#ifdef SP_EVENTS
+  ev_push_real(11 /* EV_SYM */, k, pos, a);
 #endif
   u32 r = T_res[k][pos];
   if (r == 1) *np = T_np[k][pos];
